@@ -262,14 +262,25 @@ def run_config(case, ctx):
     ctx.sample({'family': 'config', 'shape': (nr, nc), 'kinds': kinds}, limit=1)
 
 
+def _csv_consolidated(f):
+    buf = io.StringIO()
+    f.to_csv(buf)
+    return sf.Frame.from_csv(io.StringIO(buf.getvalue()), index_depth=f.index.depth, dtypes={c: str(d) for c, d in zip(f.columns.values.tolist(), f.dtypes.values) if d.kind in 'iuf'},
+                             consolidate_blocks=True).rename('nm')
+
+
+NARROW_VALUES = {'int8': ([-5, 7, 0], 'int8'), 'float32': ([1.5, float('nan'), -0.25], 'float32')}
+
+
 def run_other(case, ctx):
     kinds = ('bool', 'int', 'float', 'str')
-    for ks in itertools.product(kinds, repeat=2):
+    pairs_ = list(itertools.product(kinds, repeat=2)) + [('int8', 'int'), ('int', 'int8'), ('float32', 'float'), ('float', 'float32'), ('int8', 'float32')]
+    for ks in pairs_:
         for idepth in (1, 2):
-            cols = [VALUES[k] for k in ks]
+            cols = [VALUES[k] if k in VALUES else NARROW_VALUES[k][0] for k in ks]
             index = INDEX_LABELS[idepth] if idepth == 1 else sf.IndexHierarchy.from_labels(INDEX_LABELS[2], name=('k1', 'k2'))
             for li in (0, 1):
-                arrays = [np.array(c) for c in cols]
+                arrays = [np.array(c) if k in VALUES else np.array(c, dtype=NARROW_VALUES[k][1]) for c, k in zip(cols, ks)]
                 for a in arrays:
                     a.flags.writeable = False
                 lays = list(U.layouts(arrays))
@@ -283,6 +294,12 @@ def run_other(case, ctx):
                     'records': lambda: sf.Frame.from_records([tuple(r) for r in f.iter_tuple(axis=1)], index=f.index, columns=f.columns, name='nm'),
                     'dict_records': lambda: sf.Frame.from_dict_records([dict(zip(f.columns.values.tolist(), r)) for r in f.iter_tuple(axis=1)], index=f.index, name='nm'),
                     'items': lambda: sf.Frame.from_items(f.items(), index=f.index, name='nm'),
+                    # the importers' consolidate_blocks option merges adjacent columns of ONE dtype into a block; it must not change a cell or a column's dtype
+                    'items(consolidate_blocks)': lambda: sf.Frame.from_items(f.items(), index=f.index, name='nm', consolidate_blocks=True),
+                    'records(consolidate_blocks)': lambda: sf.Frame.from_records([tuple(r) for r in f.iter_tuple(axis=1)], index=f.index, columns=f.columns, name='nm',
+                                                                                dtypes=[str(d) for d in f.dtypes.values], consolidate_blocks=True),
+                    'fields(consolidate_blocks)': lambda: sf.Frame.from_fields([c.values for _, c in f.items()], index=f.index, columns=f.columns, name='nm', consolidate_blocks=True),
+                    'csv(dtypes, consolidate_blocks)': lambda: _csv_consolidated(f),
                 }
                 for rn, fn in routes.items():
                     ctx.transition()
@@ -292,7 +309,7 @@ def run_other(case, ctx):
                         ctx.violation(f'route|{rn}|raises-{type(e).__name__}', **info, error=repr(e))
                         continue
                     # rows pass through a consolidated row (an int next to a float travels as a float): values are compared, kinds only for the column routes
-                    compare(ctx, f'route|{rn}', f, g, info, kinds=rn in ('pairs->from_items', 'items'))
+                    compare(ctx, f'route|{rn}', f, g, info, kinds=rn in ('pairs->from_items', 'items') or 'consolidate' in rn, exact='consolidate' in rn and 'csv' not in rn and 'str' not in ks)
                 for rn, fn in (('pickle', lambda: pickle.loads(pickle.dumps(f))), ('deepcopy', lambda: copy.deepcopy(f))):
                     ctx.transition()
                     g = fn()
@@ -302,6 +319,15 @@ def run_other(case, ctx):
                         arrays_g = list(g._blocks._blocks) + [g.index.values, g.columns.values]
                         if any(a.flags.writeable for a in arrays_g):
                             ctx.violation(f'route|{rn}|writeable-array', **info)
+                # the same with the axes the library generates when no labels are given (auto-integer index and columns)
+                fa = sf.Frame(sf.TypeBlocks.from_blocks(blocks), name='nm', own_data=True)
+                for rn, fn in (('pickle', lambda: pickle.loads(pickle.dumps(fa))), ('deepcopy', lambda: copy.deepcopy(fa))):
+                    ctx.transition()
+                    g = fn()
+                    if compare(ctx, f'route|{rn}|auto-axes', fa, g, info, exact=True):
+                        arrays_g = list(g._blocks._blocks) + [g.index.values, g.columns.values, g.index.positions, g.columns.positions]
+                        if any(a.flags.writeable for a in arrays_g):
+                            ctx.violation(f'route|{rn}|auto-axes|writeable-array', **info)
     ctx.sample({'family': 'other-routes'}, limit=1)
 
 
